@@ -141,7 +141,11 @@ func refBin(op string, a, b rval) rval {
 		}
 	}
 	if op == "cat" && (a.k == "int" || a.k == "str") && (b.k == "int" || b.k == "str") {
-		return rval{k: "str", s: a.str() + b.str()}
+		s := a.str() + b.str()
+		if len(s) > 4096 {
+			panic(refBudget{})
+		}
+		return rval{k: "str", s: s}
 	}
 	if a.k == b.k && (a.k == "str" || a.k == "bool") {
 		eq := a.s == b.s && a.b == b.b
